@@ -1174,7 +1174,7 @@ def join(
         on = [on]
     on = [left[expr] == right[expr] if isinstance(expr, str) else expr for expr in on]
 
-    on = [pred.map_subtree(_preprocess_on) for pred in on]
+    on = [wrap_literals(pred).map_subtree(_preprocess_on) for pred in on]
     for i, pred in enumerate(on, 1):
         try:
             dtype = pred.dtype()
